@@ -133,10 +133,11 @@ class LinkedPair(Scenario):
         elif pair.startswith("LargeLoop"):
             # two closed loops of four corners, two receiver lines of three stations (one per loop), as in the library's own example
             rxv, txv, txc, txid = [], [], [], []
-            for ind in range(2):
+            for ind in range(3):                # three loops; the middle one has no receiver line
                 off = 500.0 * ind
-                rxv.append(real_np.c_[real_np.linspace(-10, 10, 3), real_np.zeros(3) + off, real_np.zeros(3)])
-                txid.append(real_np.ones(3) * (ind + 1))
+                if ind != 1:
+                    rxv.append(real_np.c_[real_np.linspace(-10, 10, 3), real_np.zeros(3) + off, real_np.zeros(3)])
+                    txid.append(real_np.ones(3) * (ind + 1))
                 txv.append(real_np.c_[[-100.0, -100.0, 100.0, 100.0], real_np.array([-100.0, 100.0, 100.0, -100.0]) + off, real_np.zeros(4)])
                 c0 = 4 * ind
                 txc += [[c0, c0 + 1], [c0 + 1, c0 + 2], [c0 + 2, c0 + 3], [c0 + 3, c0]]
@@ -234,6 +235,22 @@ class LinkedPair(Scenario):
                          f"{what}] the copies ({copy_kind}) record each other's identifiers ({ic} / {ip})", "copies")
                 if other_ws is None:
                     cx.prove(str(rx.uid) not in ic.values() or cp.uid == rx.uid, f"{what}] the copies do not refer to the originals", "copies")
+            if pair.startswith("LargeLoop") and comp is not None and copy_kind in ("plain", "other workspace"):
+                # every copied station refers to a copied loop with the geometry of the loop its original refers to
+                c_rx, c_tx = (cp, comp) if copy_rx else (comp, cp)
+
+                def loops(r, t):
+                    ids_t = [int(v) for v in t.tx_id_property.values]
+                    out = []
+                    for sid in [int(v) for v in r.tx_id_property.values]:
+                        out.append(sorted(tuple(float(x) for x in t.vertices[q]) for q in range(t.n_vertices) if ids_t[q] == sid))
+                    return out
+                try:
+                    same_loops = loops(c_rx, c_tx) == loops(rx, tx)
+                except Exception:  # noqa: BLE001
+                    same_loops = False
+                cx.prove(same_loops, f"{what}] after the {copy_kind} copy every copied station refers to a loop with the geometry of its "
+                                     f"original's loop", "copies")
             check_link(rx, tx, f"after the {copy_kind} copy (originals)")
         # re-open
         if reopen:
